@@ -554,8 +554,8 @@ def check_c19(case, stats=None):
         if kind == "stopped_maybe":
             continue
         topic = SYS[kind]
-        if kind == "started" and not _start_confirmed(W, x, i):
-            continue
+        # (a start refused by its callback, or undone inside it, is an entry into RUNNING all the same: it is notified, and
+        # so is the stop that follows)
         run = None
         if kind == "loop_stopped":
             for b0, e0, _r in W.loop_runs:
@@ -588,6 +588,49 @@ def check_c19(case, stats=None):
             key = (m, topic, x if kind in ("started", "stopped") else -1)
             required[key] = required.get(key, 0) + 1
             witness.setdefault(key, (i, kind, x))
+    # a subscriber to both module topics can track the state of the others: the last notification it got about a module
+    # during a loop run tells what that module's state is when the run ends
+    T_START, T_STOP = SYS["started"], SYS["stopped"]
+    for (b, e, _ret) in W.loop_runs:
+        if e >= len(W.recs):
+            continue
+        e2 = e + 1 if (e + 1 < len(W.recs) and W.recs[e + 1].k == "S") else e
+        fstart = next((j for j, f in W.loop_obs if b < j <= e2 and not f), None)
+        if fstart is None:
+            continue
+        last = {}           # (subscriber, named module) -> (topic, rec)
+        for (r, m, in_unstash) in W.sys_deliv:
+            if in_unstash or not (b <= r.i <= e2):
+                continue
+            topic = r.fields.get("topic", "-1:-").split(":", 1)[1]
+            if topic not in (T_START, T_STOP):
+                continue
+            try:
+                snd = int(r.fields.get("sender", "-1"))
+            except ValueError:
+                continue
+            if snd < 0:
+                continue
+            last[(m, snd)] = (topic, r)
+        for (m, x), (topic, r) in last.items():
+            if m == x or m in W.batching:
+                continue
+            ok_sub = all(any(s0 < b - 3 and (s1 is None or s1 > e2) and not (fl & (SRC_LOW | SRC_ONESHOT)) for (mm, t, s0, s1, fl) in subs_t if mm == m and t == tp) for tp in (T_START, T_STOP))
+            if not ok_sub:
+                continue
+            if W.state_at(m, b - 1) != "R" or W.left_active_between(m, b - 1, e2) or _was_paused_between(W, m, b - 2, e2 + 1) or W.state_at(m, e2) != "R":
+                continue
+            # the named module must not have changed state once the final flush had begun (what is sent then may reach the
+            # subscriber only in the next run), and must still be observed
+            if any(fstart <= i <= e2 for i, _l in W.state_hist.get(x, [])):
+                continue
+            sx = W.state_at(x, e2)
+            if sx is None:
+                continue
+            if stats is not None:
+                stats["state_tracking_judged"] = stats.get("state_tracking_judged", 0) + 1
+            if (topic == T_START) != (sx == "R"):
+                bad("notifications-out-of-order", "when the loop run ended module %d was %s, but the last notification module %d had received about it in that run is %s: a subscriber following the notifications ends up with the opposite of the real state" % (x, {"R": "RUNNING", "P": "PAUSED", "S": "STOPPED", "I": "IDLE", "Z": "deregistered"}.get(sx, sx), m, topic), r)
     for key, need in required.items():
         got = received.get(key, 0)
         if got < need:
